@@ -371,7 +371,8 @@ theorem InvCore.mem_compiled {s : St} (h : InvCore s) {k : Nat} (hk : 0 < s.stro
 /-- dropping one `Arc` of a module that has at least one -/
 theorem decModule_inv {F : Facts} (hG : Good F) (s : St) (k : Nat) (hc : InvCore s) (hk : 0 < s.strong k) :
     InvCore (decModule F k s) ∧ (decModule F k s).strong = upd s.strong k (s.strong k - 1)
-      ∧ (decModule F k s).pkgs = s.pkgs ∧ (decModule F k s).hs = s.hs := by
+      ∧ (decModule F k s).pkgs = s.pkgs ∧ (decModule F k s).hs = s.hs
+      ∧ (decModule F k s).info = s.info ∧ (decModule F k s).compiled = s.compiled := by
   unfold decModule
   by_cases h1 : s.strong k - 1 = 0
   · -- the last owner: the module is dropped
@@ -392,7 +393,7 @@ theorem decModule_inv {F : Facts} (hG : Good F) (s : St) (k : Nat) (hc : InvCore
       intro r; rw [d_info]
     have hal : k ∈ s.alive := hc.mem_alive hk
     have hcomp : k ∈ s.compiled := hc.mem_compiled hk
-    refine ⟨?_, d_strong, d_pkgs, d_hs⟩
+    refine ⟨?_, d_strong, d_pkgs, d_hs, d_info, d_compiled⟩
     constructor
     · intro h hh; rw [d_hs] at hh; exact hc.holds h hh
     · intro j
@@ -563,7 +564,7 @@ theorem decModule_inv {F : Facts} (hG : Good F) (s : St) (k : Nat) (hc : InvCore
   · -- other owners remain
     simp only [h1, if_false]
     have hpos : 0 < s.strong k - 1 := by omega
-    refine ⟨?_, by trivial, by trivial, by trivial⟩
+    refine ⟨?_, by trivial, by trivial, by trivial, by trivial, by trivial⟩
     constructor
     · exact hc.holds
     · intro j
@@ -828,5 +829,58 @@ theorem dropRtClos_inv {s : St} (hc : InvCore s) {r : Nat} (hr : r ∈ s.rtClos)
   · simpa using hc.no_fault
   · simpa using hc.expect_ok
   · simpa using hc.uses
+
+/-- components the invariant does not mention may change freely -/
+theorem InvCore.of_rts {s : St} (hc : InvCore s) (a b : List Nat) : InvCore { s with rts := a, built := b } :=
+  ⟨hc.holds, hc.alive_cnt, hc.constRc_eq, hc.closRc_eq, hc.const_rel, hc.const_ever, hc.clos_rel, hc.clos_ever,
+    hc.code_rel, hc.mapped_eq, hc.compiled_strong, hc.sc_rel, hc.no_fault, hc.expect_ok, hc.uses⟩
+
+theorem registerConst_inv {s : St} (hI : Inv s) {r : Nat} (hr : r ∉ s.constEver) :
+    Inv { s with rtConst := r :: s.rtConst, constEver := r :: s.constEver, constRc := upd s.constRc r 1 } := by
+  have hc := hI.toInvCore
+  have h0 := hc.const_ever r hr
+  have cq := hc.constRc_eq r
+  refine ⟨⟨hc.holds, hc.alive_cnt, ?_, hc.closRc_eq, ?_, ?_, hc.clos_rel, hc.clos_ever,
+    hc.code_rel, hc.mapped_eq, hc.compiled_strong, hc.sc_rel, hc.no_fault, hc.expect_ok, hc.uses⟩, hI.strong_eq⟩
+  · intro r'
+    show upd s.constRc r 1 r' = (r :: s.rtConst).count r' + s.alive.countP (constPred s.info r')
+    by_cases e : r' = r
+    · subst e; rw [upd_same]; simp [List.count_cons]; omega
+    · rw [upd_other _ _ _ _ e]
+      have : (r == r') = false := by simpa using fun x => e x.symm
+      simp [List.count_cons, this]; exact hc.constRc_eq r'
+  · intro r'
+    show s.relCount (.regConst r') = if r' ∈ r :: s.constEver ∧ upd s.constRc r 1 r' = 0 then 1 else 0
+    by_cases e : r' = r
+    · subst e; rw [upd_same, hc.const_rel]; simp [hr]
+    · rw [upd_other _ _ _ _ e, hc.const_rel]; simp [e]
+  · intro r' h'
+    show upd s.constRc r 1 r' = 0
+    have : r' ≠ r ∧ r' ∉ s.constEver := by simpa using h'
+    rw [upd_other _ _ _ _ this.1]; exact hc.const_ever r' this.2
+
+theorem registerClos_inv {s : St} (hI : Inv s) {r : Nat} (hr : r ∉ s.closEver) :
+    Inv { s with rtClos := r :: s.rtClos, closEver := r :: s.closEver, closRc := upd s.closRc r 1 } := by
+  have hc := hI.toInvCore
+  have h0 := hc.clos_ever r hr
+  have cq := hc.closRc_eq r
+  refine ⟨⟨hc.holds, hc.alive_cnt, hc.constRc_eq, ?_, hc.const_rel, hc.const_ever, ?_, ?_,
+    hc.code_rel, hc.mapped_eq, hc.compiled_strong, hc.sc_rel, hc.no_fault, hc.expect_ok, hc.uses⟩, hI.strong_eq⟩
+  · intro r'
+    show upd s.closRc r 1 r' = (r :: s.rtClos).count r' + s.alive.countP (closPred s.info r')
+    by_cases e : r' = r
+    · subst e; rw [upd_same]; simp [List.count_cons]; omega
+    · rw [upd_other _ _ _ _ e]
+      have : (r == r') = false := by simpa using fun x => e x.symm
+      simp [List.count_cons, this]; exact hc.closRc_eq r'
+  · intro r'
+    show s.relCount (.closure r') = if r' ∈ r :: s.closEver ∧ upd s.closRc r 1 r' = 0 then 1 else 0
+    by_cases e : r' = r
+    · subst e; rw [upd_same, hc.clos_rel]; simp [hr]
+    · rw [upd_other _ _ _ _ e, hc.clos_rel]; simp [e]
+  · intro r' h'
+    show upd s.closRc r 1 r' = 0
+    have : r' ≠ r ∧ r' ∉ s.closEver := by simpa using h'
+    rw [upd_other _ _ _ _ this.1]; exact hc.clos_ever r' this.2
 
 end RotoV.Lifetime
